@@ -64,6 +64,19 @@ Theorem C14_single_main : forall sg r0 st0 tr s,
 Proof. exact single_main. Qed.
 Print Assumptions C14_single_main.
 
+(* KNOWN FINDING same-manifest-race: the clause "exactly the live manifests" does not hold
+   when a push and a delete of the SAME manifest overlap: both calls return nil, the
+   manifest is gone, the index still lists it (C14_no_lost_update still holds: the index is
+   the fold of the accepted changes - it is the order of the manifest PUT / DELETE
+   exchanges relative to the index updates that is not controlled) *)
+Theorem C14_listing_is_live_refuted :
+  exists m, mrun false (init (Some [race_A]) [], [1]) race_trace = Some m /\
+    quiescent (fst m) /\
+    pcs (fst m) 0%nat = Done ROk /\ pcs (fst m) 1%nat = Done ROk /\
+    memb (reg (fst m)) 1 = true /\ is_live 1 m = false.
+Proof. exact listing_is_live_refuted. Qed.
+Print Assumptions C14_listing_is_live_refuted.
+
 (* the protocol never blocks by itself: in every reachable state in which some caller
    is inside updateReferrersIndex some event is enabled (a caller can assign, a waiting
    member can take the main status, the main caller's next lock region / exchange can
